@@ -130,7 +130,21 @@ def run_blind_case(ctx, case):
     B = Run(inst, case.get("filter"))
     spy = Spy(A.d)
     pos = 0
+    lookahead = case["seed"] % 2 == 0
     while True:
+        if lookahead and not A.done() and rng.random() < 0.4:
+            # a deep copy of the dispatcher is advanced (look-ahead): what the original accepts and
+            # refuses afterwards is unchanged
+            import copy
+            dup = copy.deepcopy(A.d)
+            rr = A.r.clone()
+            for _ in range(rng.randint(1, 2)):
+                if rr.complete():
+                    break
+                o9 = rng.choice(rr.ready()); m9 = rng.choice(rr.op_machines[o9])
+                dup.dispatch(dup.instance.jobs[rr.op_job[o9]][rr.op_pos[o9]], m9)
+                rr.apply(o9, m9)
+            ctx.count("lookahead_copies_advanced")
         for kind, o, m in invalid_requests(A, rng):
             before = raw_state(A.d)
             upd = spy.updates
